@@ -3,6 +3,7 @@
 // source-level contract cannot see.  The handle only touches the producer flag of the entry's UnrestrictedAtomicMgmt;
 // the writer's shared state is an opaque (never used, never dropped) object behind the thread-safety policy.
 use super::*;
+extern crate alloc;
 
 type S = crate::service::local::Service;
 type State = WriterSharedState<S, CustomKeyMarker>;
@@ -46,6 +47,47 @@ fn writer_handle_second_is_refused_without_disturbing_first() {
     assert!(fourth.is_ok());
     kani::cover!(true);
     core::mem::forget(fourth);
+    core::mem::forget(policy);
+}
+
+// ---- typed write path: EntryHandleMut::{update_with_copy, loan_uninit}, EntryValueUninit::{update_with_copy, value_mut,
+// assume_init_and_update, discard} -- C12 "a reader always obtains a value that was written in one piece ... never goes back":
+// a loan that is DISCARDED publishes nothing (whatever was half-written into the loaned cell), an update publishes exactly
+// the new value.  The handle is assembled from its parts (private fields are visible to this child module).
+type TState = WriterSharedState<S, u64>;
+type TPolicy = <S as service::Service>::ArcThreadSafetyPolicy<TState>;
+fn opaque_tpolicy() -> TPolicy {
+    let state: TState = unsafe { MaybeUninit::<TState>::zeroed().assume_init() };
+    match TPolicy::new(state) { Ok(p) => p, Err(_) => { kani::assume(false); unreachable!() } }
+}
+
+#[kani::proof]
+#[kani::unwind(4)]
+fn writer_value_discard_publishes_nothing() {
+    let (v0, v1, v2, junk): (u64, u64, u64, u64) = (kani::any(), kani::any(), kani::any(), kani::any());
+    let atomic: &'static UnrestrictedAtomic<u64> = alloc::boxed::Box::leak(alloc::boxed::Box::new(UnrestrictedAtomic::<u64>::new(v0)));
+    let policy = opaque_tpolicy();
+    let producer = atomic.acquire_producer().unwrap();
+    let handle = EntryHandleMut::<S, u64, u64> { producer, entry_id: EventId::new(0), _shared_state: policy.clone() };
+
+    // copy update
+    handle.update_with_copy(v1);
+    assert!(atomic.load() == v1);
+    // loan + update: the new value, nothing else
+    let handle = handle.loan_uninit().update_with_copy(v2);
+    assert!(atomic.load() == v2);
+    // loan, write SOMETHING into the loaned cell, discard: readers still see the last published value
+    let mut loan = handle.loan_uninit();
+    loan.value_mut().write(junk);
+    let handle = loan.discard();
+    assert!(atomic.load() == v2);
+    // a discarded loan leaves the handle fully usable and the next update is seen
+    let mut loan = handle.loan_uninit();
+    loan.value_mut().write(v0);
+    let handle = unsafe { loan.assume_init_and_update() };
+    assert!(atomic.load() == v0);
+    kani::cover!(true);
+    core::mem::forget(handle);
     core::mem::forget(policy);
 }
 
